@@ -11,6 +11,7 @@ RULE = ("program enumeration: every type-correct sequence of k modules from a ty
         "produced signals (sinks and intermediates); schedule response/seed/sensitivity, reset, and the same again. "
         "A case is one program; non-trivial = at least one signal is consumed twice or a slice/nested network is involved; "
         "distinct by program text")
+RULE += " Extended in seeding rounds 6-7:  module Add3 handing one sensitivity object to three inputs (alphabet of 20 kinds)."
 ASSUMPTIONS = ["local Jacobians of the alphabet modules are exact closed forms (pmc/refs/netad.py)",
                "pymoto.core_objects.get_init_str (diagnostic only) is replaced by a constant to make construction cheap",
                "complex signals: sensitivity g corresponds to the real gradient [Re g; -Im g] (documented convention)"]
